@@ -228,9 +228,16 @@ class TemplateData(object):
         if self.nbits_associated_list and descriptor.X != 31:
             assoc_node = AssociatedFieldNode(*self.get_next_descriptor_and_index())
             assoc_node.add_attribute(self.associated_field_meaning)
-            node = ValueDataNode(*self.get_next_descriptor_and_index())
+            if descriptor.X == 33 and self.waiting_for_qa_info_meaning:
+                node = QualityInfoNode(*self.get_next_descriptor_and_index())
+            else:
+                node = ValueDataNode(*self.get_next_descriptor_and_index())
             node.add_attribute(assoc_node)
             self.add_node(node)
+            # Quality information that carries an associated field is still an
+            # attribute of the element its bitmap designates.
+            if isinstance(node, QualityInfoNode) and node.index in self.bitmap_links:
+                self.index_to_node[self.bitmap_links[node.index]].add_attribute(node)
 
         else:
             if descriptor.X == 33 and self.waiting_for_qa_info_meaning:
